@@ -46,6 +46,11 @@ def battery():
         get_db("mimxrt1189").get_list("bootable_image", "mem_types") if False else get_db("mimxrt1189").device.info.purpose,
         sorted(get_schema_file("mbi").keys()),
         get_db("mcxn947").get_str("pfr", ["cmpa", "reg_spec"]),
+        # further configuration files that live in the data cache, asked for in a fixed order (a cache entry that is trusted although its
+        # file has changed shows up in the answer of the LATER ones as well)
+        sorted(get_schema_file("sb31").keys()),
+        sorted(get_schema_file("pfr").keys()),
+        sorted(get_schema_file("cert_block").keys()),
     ]
     return hashlib.sha256(json.dumps(res, sort_keys=True, default=str).encode()).hexdigest()[:16]
 
@@ -111,6 +116,9 @@ def child_main(cache_dir, rd, wr, name, disabled=False):
             yield_("dump", file=fname(f.name))
             return r
 
+    def is_folder(p):
+        return os.path.abspath(str(p)) == os.path.abspath(cache_dir)
+
     class OsPath:
         def __getattr__(self, n):
             return getattr(os.path, n)
@@ -119,6 +127,14 @@ def child_main(cache_dir, rd, wr, name, disabled=False):
             r = os.path.exists(p)
             if str(p).endswith(".cache"):
                 yield_("exists", file=fname(p), r=r)
+            elif is_folder(p):
+                yield_("direxists", r=r)
+            return r
+
+        def isdir(self, p):
+            r = os.path.isdir(p)
+            if is_folder(p):
+                yield_("direxists", r=r)
             return r
 
     class Os:
@@ -126,6 +142,26 @@ def child_main(cache_dir, rd, wr, name, disabled=False):
 
         def __getattr__(self, n):
             return getattr(os, n)
+
+        def makedirs(self, p, mode=0o777, exist_ok=False):
+            if not is_folder(p):
+                return os.makedirs(p, mode, exist_ok)
+            try:
+                os.makedirs(p, mode, exist_ok)
+            except FileExistsError:
+                yield_("mkdir", ok=False, r=bool(exist_ok))
+                raise
+            yield_("mkdir", ok=True, r=bool(exist_ok))
+
+        def mkdir(self, p, *a, **k):
+            if not is_folder(p):
+                return os.mkdir(p, *a, **k)
+            try:
+                os.mkdir(p, *a, **k)
+            except FileExistsError:
+                yield_("mkdir", ok=False, r=False)
+                raise
+            yield_("mkdir", ok=True, r=False)
 
         def remove(self, p):
             try:
@@ -366,6 +402,8 @@ def classify(cache_dir):
 
 def find_files(cache_dir):
     res = {}
+    if not os.path.isdir(cache_dir):
+        return res
     for n in os.listdir(cache_dir):
         if n.endswith(".cache"):
             res[fname(n)] = os.path.join(cache_dir, n)
@@ -419,12 +457,12 @@ class Template:
             out["quick"] = pickle.dumps(q, pickle.DEFAULT_PROTOCOL).hex()
             dd = pickle.loads(self.valid["data"])
             dd.db_hash = b"\x55" * len(dd.db_hash)
+            if len(dd.cfg_cache) < 4:
+                os.write(w, json.dumps({"error": f"only {len(dd.cfg_cache)} configuration files in the data cache"}).encode())
+                os._exit(0)
             for k in list(dd.cfg_cache.keys()):
-                if k.endswith(os.path.join("lpc55s3x", "database.yaml")):
-                    try:
-                        dd.cfg_cache[k]["features"]["mbi"]["mbi_classes"] = {"bogus": {}}
-                    except Exception:  # noqa: BLE001
-                        pass
+                if isinstance(dd.cfg_cache[k], dict):
+                    dd.cfg_cache[k]["bogus_key_of_a_stale_cache"] = {}        # every answer computed from a trusted stale entry differs
             out["data"] = pickle.dumps(dd, pickle.DEFAULT_PROTOCOL).hex()
             os.write(w, json.dumps(out).encode())
             os._exit(0)
@@ -438,12 +476,18 @@ class Template:
         os.close(r)
         os.waitpid(pid, 0)
         out = json.loads(data)
+        if "error" in out:
+            raise Machinery(f"stale template: {out['error']}")
         return {f: bytes.fromhex(out[f]) for f in FILES}
 
     def prepare(self, cache_dir, init, r):
         """Fill cache_dir according to init = {"quick": kind | ["partial", n], "data": ...}. Returns the abstract kinds."""
+        kinds = {"dir": bool(init.get("dir", True))}
+        if not kinds["dir"]:
+            if any(init[f] != "missing" for f in FILES):
+                raise Machinery("a cache folder that does not exist holds no files")
+            return dict(kinds, **{f: "missing" for f in FILES})
         os.makedirs(cache_dir, exist_ok=True)
-        kinds = {}
         for f in FILES:
             k = init[f]
             n = None
@@ -540,7 +584,7 @@ def stress(tmpl, base, sid, init, n, r):
 
 def key_of(t, matched):
     e = t["ev"][min(matched, len(t["ev"]) - 1)]
-    init = "+".join(f"{f}={t['init'][f]}" for f in FILES)
+    init = "+".join(f"{f}={t['init'][f]}" for f in FILES) + ("" if t["init"].get("dir", True) else "+nofolder")
     kind = "stress" if t["sched"] == "stress" else ("kill" if any(s["at"] == "KILL" for s in t["sched"]) else ("interleaving" if len({s["p"] for s in t["sched"]}) > 1 else "solo"))
     if e["ev"] == "fatal":
         return f"C18/{kind}/{init}/fatal:{e.get('exc')}"
@@ -615,6 +659,15 @@ def run(tier):
         sched = ([{"p": "p1", "at": "step"}] * a + [{"p": "p2", "at": "step"}] * b) * 6
         jobs.append((f"race-{i}", init, sched))
 
+    # ---- the cache folder itself does not exist yet: solo, every short two-process interleaving of the first primitives, late kill
+    nofolder = {"quick": "missing", "data": "missing", "dir": False}
+    jobs.append(("nofolder-solo", nofolder, solo))
+    for a in range(1, 5):
+        for b in range(1, 5):
+            jobs.append((f"nofolder-race-{a}-{b}", nofolder, [{"p": "p1", "at": "step"}] * a + [{"p": "p2", "at": "step"}] * b + [{"p": "p1", "at": "step"}] * 3))
+    for k in (1, 2, 3, 5, 8):
+        jobs.append((f"nofolder-kill-{k}", nofolder, [{"p": "p1", "at": "step"}] * k + [{"p": "p1", "at": "KILL"}, {"p": "p2", "at": "step"}]))
+
     def do(job):
         sid, init, sched = job
         return run_scenario(tmpl, base, sid, init, sched, rng(PROP, sid))
@@ -623,7 +676,7 @@ def run(tier):
     say(f"[C18] {len(traces)} scheduled scenarios executed on real processes ({v.timer.s()}s)")
     # ---- stress: unsynchronised fresh interpreters
     for i, (n, init) in enumerate([(8, {"quick": "missing", "data": "missing"}), (8, {"quick": "empty", "data": ["partial", 1000]}),
-                                   (8, {"quick": ["partial", 5000], "data": "stale"})] * (1 if tier == "quick" else 10)):
+                                   (8, {"quick": ["partial", 5000], "data": "stale"}), (8, nofolder)] * (1 if tier == "quick" else 10)):
         traces.append(stress(tmpl, base, f"stress-{i}", init, n if tier == "quick" else 16, r))
     say(f"[C18] stress rounds done ({v.timer.s()}s)")
     v.count(len(traces))
